@@ -459,6 +459,17 @@ def parse_type(s):
     m = re.match(r'^auto \((.*)\)((?: const)?(?: noexcept)?) -> (.+)$', s)
     if m and '->' not in m.group(3):
         s = '%s (%s)%s' % (m.group(3), m.group(1), m.group(2))
+    if s.startswith('decltype('):
+        # a function declared with a decltype return type (only as an external prototype whose result is discarded): void
+        d = 0
+        for i, ch in enumerate(s):
+            if ch == '(':
+                d += 1
+            elif ch == ')':
+                d -= 1
+                if d == 0:
+                    s = 'void' + s[i + 1:]
+                    break
     return TypeParser(s).parse()
 
 
